@@ -320,3 +320,120 @@ def gen_annotate():
 
 
 GENERATORS = (('LindigLattice', gen_lindig_lattice), ('Iterunion', gen_iterunion), ('Annotate', gen_annotate))
+
+
+# ---------------------------------------------------------------------------------------------------------------------
+
+def gen_sortkeys():
+    """Which bitset order sorts what in `Lattice.__init__`, `_init` and `_fromlist(unordered=True)`."""
+    tree = _src('lattices.py')
+    order = {}
+    for helper in ('_shortlex', '_longlex'):
+        m = _method(tree, 'Data', helper)
+        stmts = [ast.unparse(s) for s in _nodoc(m.body)]
+        if [a.arg for a in m.args.args] != ['concept'] or len(stmts) != 1:
+            raise Decline('%s changed' % helper)
+        for meth in ('shortlex', 'longlex'):
+            if stmts[0] == 'return concept._extent.%s()' % meth:
+                order[helper] = meth
+        if helper not in order:
+            raise Decline('%s returns %s' % (helper, stmts[0]))
+
+    def keys_of(fn, receivers):
+        """local names bound to self._shortlex / inst._longlex ... -> order name"""
+        loc = {}
+        for st in ast.walk(fn):
+            if isinstance(st, ast.Assign) and len(st.targets) == 1 and isinstance(st.targets[0], ast.Name):
+                v = st.value
+                if isinstance(v, ast.Attribute) and isinstance(v.value, ast.Name) and v.value.id in receivers and v.attr in order:
+                    if st.targets[0].id in loc and loc[st.targets[0].id] != order[v.attr]:
+                        raise Decline('%s rebinds %s' % (fn.name, st.targets[0].id))
+                    loc[st.targets[0].id] = order[v.attr]
+        return loc
+
+    def key_name(node, loc, receivers):
+        if isinstance(node, ast.Name) and node.id in loc:
+            return loc[node.id]
+        if isinstance(node, ast.Attribute) and isinstance(node.value, ast.Name) and node.value.id in receivers and node.attr in order:
+            return order[node.attr]
+        raise Decline('sort key %s' % ast.unparse(node))
+
+    def sorted_call(node, loc, receivers):
+        """sorted(x, key=k) / tuple(sorted(x, key=k)) -> (source text, order)"""
+        if isinstance(node, ast.Call) and isinstance(node.func, ast.Name) and node.func.id == 'tuple' and len(node.args) == 1:
+            node = node.args[0]
+        if (isinstance(node, ast.Call) and isinstance(node.func, ast.Name) and node.func.id == 'sorted' and len(node.args) == 1
+                and len(node.keywords) == 1 and node.keywords[0].arg == 'key'):
+            return ast.unparse(node.args[0]), key_name(node.keywords[0].value, loc, receivers)
+        return None
+
+    def neighbor_sorts(fn, loc, receivers, scope):
+        found = {}
+        for st in ast.walk(scope):
+            if (isinstance(st, ast.Assign) and len(st.targets) == 1 and isinstance(st.targets[0], ast.Attribute)
+                    and st.targets[0].attr in ('upper_neighbors', 'lower_neighbors')):
+                sc = sorted_call(st.value, loc, receivers)
+                if sc is None:
+                    continue
+                want_src = {'upper_neighbors': 'upper', 'lower_neighbors': 'lower'}[st.targets[0].attr]
+                if sc[0] != want_src:
+                    raise Decline('%s: %s sorted from %s' % (fn.name, st.targets[0].attr, sc[0]))
+                if st.targets[0].attr in found:
+                    raise Decline('%s: %s assigned twice from a sort' % (fn.name, st.targets[0].attr))
+                found[st.targets[0].attr] = sc[1]
+        return found
+
+    rec = ('self', 'inst', 'cls')
+    init = _method(tree, 'Data', '__init__')
+    loc = keys_of(init, rec)
+    got = neighbor_sorts(init, loc, rec, init)
+    if set(got) != {'upper_neighbors', 'lower_neighbors'}:
+        raise Decline('__init__: neighbor tuples are not both sorted: %r' % got)
+    init_cfg = [('upper_neighbors', got['upper_neighbors']), ('lower_neighbors', got['lower_neighbors'])]
+    # the generators for upper / lower must resolve the mapping
+    text = ast.unparse(init)
+    for need in ('upper = (mapping[u] for u in c.upper_neighbors)', 'lower = (mapping[l] for l in c.lower_neighbors)'):
+        if need not in text:
+            raise Decline('__init__: %r is gone' % need)
+    _init = _method(tree, 'Data', '_init')
+    d = [st for st in ast.walk(_init) if isinstance(st, ast.For) and ast.unparse(st.target).strip('()') == 'dindex, c']
+    if len(d) != 1:
+        raise Decline('_init: no unique dindex loop')
+    it = d[0].iter
+    if not (isinstance(it, ast.Call) and isinstance(it.func, ast.Name) and it.func.id == 'enumerate' and len(it.args) == 1 and not it.keywords):
+        raise Decline('_init: dindex loop over %s' % ast.unparse(it))
+    sc = sorted_call(it.args[0], keys_of(_init, rec), rec)
+    if sc is None or sc[0] != 'inst._concepts':
+        raise Decline('_init: dindex loop over %s' % ast.unparse(it))
+    if 'c.dindex = dindex' not in [ast.unparse(s) for s in d[0].body]:
+        raise Decline('_init: dindex is not assigned in its loop')
+    init_cfg.append(('dindex', sc[1]))
+    fl = _method(tree, 'Data', '_fromlist')
+    branch = [st for st in fl.body if isinstance(st, ast.If) and ast.unparse(st.test) == 'unordered']
+    if len(branch) != 1:
+        raise Decline('_fromlist: no unique `if unordered:`')
+    loc = keys_of(fl, rec)
+    sorts = [st for st in branch[0].body if isinstance(st, ast.Expr) and isinstance(st.value, ast.Call)
+             and ast.unparse(st.value.func) == 'concepts.sort']
+    if len(sorts) != 1 or sorts[0].value.args or len(sorts[0].value.keywords) != 1 or sorts[0].value.keywords[0].arg != 'key':
+        raise Decline('_fromlist: no unique concepts.sort(key=...)')
+    fl_cfg = [('concepts', key_name(sorts[0].value.keywords[0].value, loc, rec))]
+    scope = ast.Module(body=branch[0].body, type_ignores=[])
+    got = neighbor_sorts(fl, loc, rec, scope)
+    if set(got) != {'upper_neighbors', 'lower_neighbors'}:
+        raise Decline('_fromlist: neighbor tuples of the unordered branch are not both sorted: %r' % got)
+    fl_cfg += [('upper_neighbors', got['upper_neighbors']), ('lower_neighbors', got['lower_neighbors'])]
+
+    def lean(cfg):
+        return '[%s]' % ', '.join('("%s", "%s")' % kv for kv in cfg)
+    return '\n'.join([
+        '/- GENERATED by harness/extract2.py from Lattice.__init__, _init and _fromlist in concepts/lattices.py — do not edit.',
+        '   (what is sorted, by which order of the extents) -/',
+        'namespace FCA.Generated', '',
+        '/-- `Lattice.__init__` / `_init` -/',
+        'def init_sort_cfg : List (String × String) := ' + lean(init_cfg), '',
+        '/-- `Lattice._fromlist(..., unordered=True)` -/',
+        'def fromlist_sort_cfg : List (String × String) := ' + lean(fl_cfg), '', 'end FCA.Generated', ''])
+
+
+GENERATORS = GENERATORS + (('SortKeys', gen_sortkeys),)
